@@ -66,7 +66,7 @@ def run(ctx):
                 'recurrence; partition sets N<=%d; every standard tableau of every shape with N<=%d (Young-lattice model, both directions); distinct by table / N / shape / tableau'
                 % (4 if quick else 5, 4 if quick else 5, 24 if quick else 60, 16 if quick else 25, 8 if quick else 10))
     ctx.assumptions = ['TLC/SANY correct', 'characters of rational groups are rounded to integers with residual <= 1e-7 (a larger residual is itself reported)']
-    ctx.not_covered = ['entry-wise unitarity / homomorphism of the floating irreducible blocks (numeric residual)', 'character values of groups with irrational characters']
+    ctx.not_covered = ['unitarity / homomorphism of the irreducible blocks finer than the rounding tolerance (2.5 percent of the squared scale)', 'character values of groups with irrational characters']
     ev = []
     meta = []
     for kind, n, f in tables(ctx.tier):
@@ -87,6 +87,8 @@ def run(ctx):
                 ch = np.stack([np.trace(x, axis1=1, axis2=2) for x in irr])
                 integral = np.abs(ch - np.round(ch.real)).max() < 1e-7
                 ev.append(dict(op='irreps', kind=kind, n=n, T=T1, dims=dims, chars=[li(np.round(r.real)) for r in ch] if integral else []))
+                meta.append((kind, n))
+                ev.append(dict(op='irrepmats', kind=kind, n=n, T=T1, S=2000, mats=[[[[[int(round(z.real * 2000)), int(round(z.imag * 2000))] for z in row] for row in Dg] for Dg in np.asarray(x)] for x in irr]))
                 meta.append((kind, n))
                 ch2, class_list, table = G.get_character_and_class(irr)
                 ev.append(dict(op='classes', kind=kind, n=n, T=T1, classes=[[int(x) + 1 for x in c] for c in class_list]))
@@ -159,6 +161,8 @@ def run(ctx):
             ctx.violation('C14:cayley-table:%s' % e['kind'], 'table is not a group table of the named group / left-regular form is not a faithful homomorphism (%s %s)' % (e['kind'], e['n']), dict(kind=e['kind'], n=e['n'], T=e['T']))
         elif e['op'] == 'irreps':
             ctx.violation('C14:reduce_group_representation:%s' % e['kind'], 'irreducible blocks: dimensions / count / integer characters rejected (%s %s)' % (e['kind'], e['n']), dict(kind=e['kind'], n=e['n'], dims=e['dims'], chars=e['chars']))
+        elif e['op'] == 'irrepmats':
+            ctx.violation('C14:reduce_group_representation:homomorphism:%s' % e['kind'], 'an irreducible block is not a unitary homomorphism D(g) D(h) = D(gh) (%s %s; rounded at scale 2000, tolerance 2.5%%)' % (e['kind'], e['n']), dict(kind=e['kind'], n=e['n']))
         elif e['op'] == 'classes':
             ctx.violation('C14:get_character_and_class:classes', 'reported conjugacy classes differ from the classes of the Cayley table (%s %s)' % (e['kind'], e['n']), dict(kind=e['kind'], n=e['n'], classes=e['classes']))
         elif e['op'] == 'pcount':
